@@ -30,10 +30,10 @@ VARIANTS = [
            "        new_circuit.constants.update(circuit.registers)\n        new_circuit.registers.update(circuit.registers)\n        new_circuit.usepulses")],
          ("C04.1", "Circuit")),
     fire("c04-replacer-iterations-not-visited",
-         [(EM, "            iterations=self.visit(block.iterations),\n", "            iterations=block.iterations,\n")],
+         [(EM, "            iterations=self.substitute_count(block.iterations),\n", "            iterations=block.iterations,\n")],
          ("C04.5", "BlockStatement.iterations")),
     fire("c04-replacer-loop-count-not-visited",
-         [(EM, "            iterations=self.visit(loop.iterations),\n", "            iterations=loop.iterations,\n")],
+         [(EM, "            iterations=self.substitute_count(loop.iterations),\n", "            iterations=loop.iterations,\n")],
          ("C04.5", "LoopStatement.iterations")),
     fire("c04-splice-ignores-subcircuit",
          [(EM, "                and not new_stmt.subcircuit\n", "", 0)],
@@ -72,6 +72,6 @@ VARIANTS = [
            [(EM, "        if len(gate.parameters) != len(macro.parameters):\n            raise JaqalError(",
              "        n_args = len(gate.parameters)\n        if n_args != len(macro.parameters):\n            raise JaqalError(")]),
     silent("c04-branch-on-parallel",
-           [(EM, "        return BlockStatement(\n            parallel=block.parallel,\n            subcircuit=block.subcircuit,\n            iterations=self.visit(block.iterations),\n            statements=new_statements,\n        )",
-             "        count = self.visit(block.iterations)\n        if block.parallel:\n            return BlockStatement(parallel=True, subcircuit=block.subcircuit, iterations=count, statements=new_statements)\n        return BlockStatement(parallel=False, subcircuit=block.subcircuit, iterations=count, statements=new_statements)")]),
+           [(EM, "        return BlockStatement(\n            parallel=block.parallel,\n            subcircuit=block.subcircuit,\n            iterations=self.substitute_count(block.iterations),\n            statements=new_statements,\n        )",
+             "        count = self.substitute_count(block.iterations)\n        if block.parallel:\n            return BlockStatement(parallel=True, subcircuit=block.subcircuit, iterations=count, statements=new_statements)\n        return BlockStatement(parallel=False, subcircuit=block.subcircuit, iterations=count, statements=new_statements)")]),
 ]
